@@ -198,7 +198,17 @@ def run(report, p):
     lgn = p.funcs.get(f"{hist}.latest_generation_number")
     rets = [n for n in walk_no_nested(lgn.node) if isinstance(n, ast.Return)]
     loops = [n for n in walk_no_nested(lgn.node) if isinstance(n, ast.For)]
-    r3.check(len(loops) == 1 and is_plain_iter(p, loops[0].iter) and norm(loops[0].iter).endswith("hash_lists"), lgn, lgn.node, "latest_generation_number does not scan all generations", construct="latest_generation_number")
+    ok_scan = len(loops) == 1 and is_plain_iter(p, loops[0].iter) and norm(loops[0].iter).endswith("hash_lists")
+    if not ok_scan and len(loops) == 1:
+        # backward scan: the first generation from the end that carries a number is the last one from the front
+        it = loops[0].iter
+        rev = isinstance(it, ast.Call) and norm(it.func) == "reversed" and len(it.args) == 1 and norm(it.args[0]).endswith("hash_lists") and is_plain_iter(p, it.args[0])
+        v = norm(loops[0].target)
+        inner = [n for n in ast.walk(loops[0]) if isinstance(n, ast.Return)]
+        guards_ok = all(norm(r.value) == f"{v}.generation_number" and [norm(t.ast) for t, l in cfg_of(lgn).control_deps(cfg_of(lgn).node_for(r), through_loops=False) if t.kind == "test" and l == "T"] == [f"{v}.generation_number"] for r in inner)
+        no_exit = not [x for x in ast.walk(loops[0]) if isinstance(x, (ast.Break, ast.Continue))]
+        ok_scan = rev and bool(inner) and guards_ok and no_exit
+    r3.check(ok_scan, lgn, lgn.node, "latest_generation_number does not scan all generations", construct="latest_generation_number")
     # every value it can return is a number read from a manifest that was actually loaded (or the constant start value):
     # the chain file lags behind the manifests after an interrupted run, a number taken from it can be one that is already used
     for rt in rets:
@@ -208,6 +218,8 @@ def run(report, p):
             for t in alts(o):
                 while t[0] == "call" and t[1] in ("builtin:int", "builtin:max") and len(t[2]) >= 1 and all(x[0] == "const" for x in t[2][1:]):
                     t = t[2][0]
+                if t[0] == "attr" and t[2] == "generation_number" and t[1][0] == "elem" and t[1][1][0] == "call" and t[1][1][1] == "builtin:reversed" and t[1][1][2]:
+                    t = ("attr", ("elem", t[1][1][2][0], t[1][2]), t[2], t[3] if len(t) > 3 else None)
                 if t[0] == "const" and isinstance(t[1], int):
                     continue
                 if t[0] == "attr" and t[2] == "generation_number" and t[1][0] == "elem" and t[1][1][0] == "attr" and t[1][1][2] == "hash_lists" and t[1][1][1][0] == "self":
@@ -300,8 +312,10 @@ def run(report, p):
     promos = [n for n in gv.nodes if n.kind == "stmt" and isinstance(n.ast, ast.Assign) and any(isinstance(t, ast.Attribute) and t.attr == "action" for t in n.ast.targets)]
     okp = len(promos) == 1 and p.fold(promos[0].ast.value, val) == "verified"
     if okp:
-        deps = {(norm(t.ast).replace('"', "'"), l) for t, l in gv.control_deps(promos[0]) if t.kind == "test"}
-        need_deps = {("hash_entry.action == 'new'", "T"), ("required_hash_entry is None", "F"), ("required_hash_entry.action != 'verified'", "F")}
+        from .common import branch_where, canon_dep
+
+        deps = {canon_dep(t.ast, l) for t, l in gv.control_deps(promos[0]) if t.kind == "test"}
+        need_deps = {("hash_entry.action == 'new'", "T"), ("required_hash_entry is None", "F"), ("required_hash_entry.action == 'verified'", "T")}
         okp = need_deps <= deps and len(deps) == 3
         r5.check(okp, val, promos[0].ast, f"'new' is promoted to 'verified' under {sorted(deps)}; required: the entry of the reference format exists and is verified", construct=f"promotion under {sorted(deps)}")
     else:
@@ -310,7 +324,10 @@ def run(report, p):
         if t.kind == "test" and "'new'" in norm(t.ast).replace('"', "'"):
             fix = {n.id for n in promos}
             loops = {n.id for n in gv.nodes if n.kind == "loop"} | {gv.exit.id}
-            path = gv.find_path(t, loops, avoid=fix, first_edges=[(m, l) for m, l in t.succ if l == "T"])
+            from .common import branch_where
+
+            newl = branch_where(t.ast, True)  # the branch on which `.action == 'new'` holds
+            path = gv.find_path(t, loops, avoid=fix, first_edges=[(m, l) for m, l in t.succ if l == newl])
             r5.check(path is None, val, t.ast, "an entry marked 'new' can leave the validator unpromoted without an abort", witness=gv.fmt_path(path) if path else None)
     # the required entry is looked up in the same record by the format of the file's original entry
     req = [n for n in walk_no_nested(val.node) if isinstance(n, ast.Assign) and isinstance(n.value, ast.Call) and isinstance(n.value.func, ast.Attribute) and n.value.func.attr == "find_hash_entry_for_format"]
